@@ -3,7 +3,7 @@
     the two definitions of [abort] are translated from arc.rs / lib.rs on every run; the increment is modelled
     modulo 2^64. *)
 From Coq Require Import NArith List Bool.
-From TV Require Import Layout SrcFacts Bits Conc Mech MechProofs Guard Extracted.
+From TV Require Import Layout SrcFacts Bits Conc Mech MechProofs Guard GuardConc Extracted.
 Import ListNotations.
 Open Scope N_scope.
 
@@ -55,9 +55,25 @@ Example C16_boundary : clone_model GuardOldGt ActAbort (Some isize_max) (2 ^ 63 
                        clone_model GuardOldGt ActAbort (Some isize_max) (2 ^ 64 - 1) = CAbort.
 Proof. vm_compute. repeat split. Qed.
 
+
+(** concurrent clones: [Arc::clone] is a fetch_add followed by a test of the OLD value, so other threads may increment
+    in between.  For EVERY interleaving of those two steps by any number of threads (fewer than 2^62), with the guard
+    and the limit as translated from the source: while the process has not aborted the count stays below 2^64 - it
+    never wraps - and a handle is only ever returned for an increment whose old value was at or below the limit *)
+Theorem C16_concurrent_clones_never_wrap :
+  forall m c0 threads ls s, Extracted.max_refcount_val = Some m ->
+  c0 <= maxr + 1 -> N.of_nat threads < 2 ^ 62 ->
+  gexec Extracted.clone_guard m (ginit c0 threads) ls = Some s -> g_aborted s = false ->
+  g_count s < 2 ^ 64 /\ Forall (fun old => old <= maxr) (g_handed s).
+Proof.
+  intros m c0 threads ls s Hm. apply concurrent_clones_never_wrap; [reflexivity|].
+  vm_compute in Hm. inversion Hm. reflexivity.
+Qed.
+
 Check C16_guard_exact.
 Print Assumptions C16_guard_exact.
 Print Assumptions C16_never_wraps.
 Print Assumptions C16_abort_terminates_the_process.
 Print Assumptions C16_machine_clone_is_the_guard.
 Print Assumptions C16_every_clone_path_is_guarded.
+Print Assumptions C16_concurrent_clones_never_wrap.
